@@ -2,7 +2,7 @@
 import math
 
 from runner import Harness
-from rig.stubs import rigged, RecLogger
+from rig.stubs import rigged, RecLogger, CLOCK
 from symx import sym_ite
 
 PROPERTY = 'C20'
@@ -185,6 +185,125 @@ def process_stream(src, k=4):
         if not model:
             src.check('holder-removed-when-nobody-runs-it', 'app:p' not in comp.holder_map, sig='holder')
     src.reach('streamed')
+
+
+class _FakePsutil:
+    """environment stub for psutil inside supvisors.statscollector: a process table owned by the harness; what a
+    call returns is solver-chosen within psutil's contract (a live pid can be sampled or hit a transient OSError, a dead
+    one raises NoSuchProcess)"""
+
+    class NoSuchProcess(Exception):
+        pass
+
+    class AccessDenied(Exception):
+        pass
+
+    def __init__(self):
+        self.alive = set()
+        self.next_outcome = 'ok'
+        outer = self
+
+        class Process:
+            def __init__(self, pid=None):
+                if pid is not None and pid not in outer.alive:
+                    raise outer.NoSuchProcess(pid)
+                self.pid = pid if pid is not None else 1
+
+            def as_dict(self, attrs=None):
+                if self.pid not in outer.alive and self.pid != 1:
+                    raise outer.NoSuchProcess(self.pid)
+                if outer.next_outcome == 'oserror':
+                    raise OSError('Too many open files')
+                return {'cpu_times': (1.0, 2.0, 0.0, 0.0), 'memory_percent': 1.5}
+
+            def children(self, recursive=True):
+                return []
+        self.Process = Process
+
+
+class _Conn:
+    def __init__(self):
+        self.sent = []
+
+    def send(self, x):
+        self.sent.append(x)
+
+    def poll(self, *a):
+        return False
+
+
+@rigged
+def collector_stream(src, k=5):
+    """H20c: the real ProcessStatisticsCollector (process list, pid changes, transient psutil failures) feeding the real
+    ProcStatisticsCompiler: once a process has stopped and the collector has been told (pid 0) or has noticed, no
+    history of it remains"""
+    import supvisors.statscollector as COL
+    from supvisors.statscompiler import ProcStatisticsCompiler
+    fake = _FakePsutil()
+    saved = COL.psutil
+    COL.psutil = fake
+    try:
+        period = 5.0
+        conn = _Conn()
+        collector = COL.ProcessStatisticsCollector.__new__(COL.ProcessStatisticsCollector)
+        COL.StatisticsCollector.__init__(collector, conn, period, True)
+        collector.processes = []
+        collector.supervisor_process = {'last': 0, 'supervisor': fake.Process(), 'collector': fake.Process()}
+        comp = ProcStatisticsCompiler(_Opts([period], 3), RecLogger())
+        ident, ns = '10.0.0.1:25000', 'app:p'
+        running = None          # pid of the live process
+        told_stopped = True     # the collector knows (event) or has noticed (sampling) that nothing runs
+        sampled = False
+
+        def forward():
+            while conn.sent:
+                stats = conn.sent.pop(0)
+                if isinstance(stats, dict) and stats.get('namespec') == ns:
+                    comp.push_statistics(ident, dict(stats, nb_cores=2) if 'proc_work' in stats else stats)
+        for i in range(k):
+            choices = ['collect']
+            if running is None:
+                choices += ['start']
+            else:
+                choices += ['stop', 'die_silently', 'restart']
+            what = src.pick(f'step{i}', choices)
+            CLOCK[0].advance(period)
+            if what == 'start' or what == 'restart':
+                pid = 100 + i
+                fake.alive = {pid}
+                running = pid
+                collector.update_process_list(ns, pid)      # RUNNING event carries the pid
+                told_stopped = False
+            elif what == 'stop':
+                fake.alive = set()
+                running = None
+                collector.update_process_list(ns, 0)        # any other state: pid 0
+                told_stopped = True
+            elif what == 'die_silently':
+                fake.alive = set()
+                running = None
+            else:
+                fake.next_outcome = src.pick(f'psutil{i}', ['ok', 'oserror']) if running else 'ok'
+                had = bool(collector.processes)
+                collector.collect_recent_process()
+                if running is None and had:
+                    told_stopped = True                      # the sampling met NoSuchProcess
+            forward()
+            inst = comp.get_stats(ns, ident, period)
+            if inst is not None:
+                src.reach('history')
+            src.check('one-entry-per-process', len([p for p in collector.processes if p['namespec'] == ns]) <= 1,
+                      sig='collector')
+            if running is None and told_stopped:
+                src.check('history-of-stopped-process-dropped', inst is None and ns not in comp.holder_map,
+                          sig=f'collector:after-{what}', step=i)
+            if running is not None:
+                src.check('running-process-still-collected', any(p['namespec'] == ns and p['process'].pid == running
+                                                                 for p in collector.processes),
+                          sig=f'collector:after-{what}', step=i)
+        src.reach('streamed')
+    finally:
+        COL.psutil = saved
 
 
 @rigged
@@ -397,6 +516,8 @@ HARNESSES = [
             doc='host statistics stream: bounded, aligned, period respected'),
     Harness('H20p', process_stream, quick={'k': 4}, thorough={'k': 5}, reach=('streamed', 'point', 'stopped'),
             timeout=(100, 900), doc='process statistics stream: pid changes, stops, identifiers'),
+    Harness('H20c', collector_stream, quick={'k': 5}, thorough={'k': 7}, reach=('streamed', 'history'),
+            timeout=(60, 600), doc='real ProcessStatisticsCollector under psutil failures -> real ProcStatisticsCompiler'),
     Harness('H20i', io_kernel, quick={}, thorough={}, reach=('done', 'rate'), timeout=(60, 60),
             doc='io_statistics on symbolic 64-bit counters: wrap guard of both directions, key sets'),
     Harness('H20t', trunc, quick={}, thorough={}, reach=('done',), timeout=(30, 30), doc='trunc_depth lemma'),
